@@ -209,8 +209,11 @@ def run_case(case, rng):
             case.count("episodes_observed")
 
     cls = getattr(td, learner_name)
-    learner = cls(episodes=episodes, step_size=alpha, rand_choose=eps, softmax_temp=temp, initial_q=initial_q,
-                  seed=seed, event_listener_class=Probe)
+    from mon import defaults as Dflt
+    tkw, _om = Dflt.rely_on_defaults(case, rng, "TD", dict(episodes=episodes, step_size=alpha, rand_choose=eps, softmax_temp=temp,
+                                                         initial_q=initial_q, seed=seed))
+    learner = cls(event_listener_class=Probe, **tkw)
+    Dflt.in_force(case, "TD", learner, passed=tkw, learner=learner_name)
     if rng.random() < 0.2 and not near_tie:
         # the same learner object is first trained on a sibling problem (one more absorbing state)
         import copy
